@@ -113,7 +113,7 @@ impl Matrix<Cmplx> {
         let mut state = point.clone();
         let mut jac = Matrix::<Cmplx>::new( m, n, Cmplx::new( 0.0, 0.0 ) );
         for i in 0..n {
-            state[i] += Cmplx::new( delta, 0.0 );
+            state[i].real += delta; // "+= Cmplx::new( delta, 0.0 )" would also turn an imaginary part of -0.0 into +0.0
             let f_new = func( state.clone() ); 
             state[i] = point[i]; // "-= delta" does not give the coordinate back when x + delta was rounded
             jac.set_col( i, ( f_new - f.clone() ) / Cmplx::new( delta, 0.0 ) );
